@@ -13,6 +13,7 @@ declare -A CHECKS=(
  [yens-candidates-forgotten]="C13"
  [c19-lock-released-before-newline]="C19"
  [c10-runtime-limit-stops-at-half-budget]="C10"
+ [c14-linspace-step-divides-by-n]="C14"
 )
 for n in "${!CHECKS[@]}"; do
   /verif/tools/try_mutant.sh /verif/seeded/regress/$n.diff $TIER ${CHECKS[$n]} 2>&1 | sed "s/^/$n: /" | grep -v "^$n:    "
